@@ -158,6 +158,7 @@ func (u *Unit) boundTarget(f *ssa.Function) *ssa.Function {
 
 func runC40(c *Ctx) {
 	u, r := c.U, c.R
+	seedfixC40(c)
 	roots := []*ssa.Function{u.Func("(*HttpServer).ServeHTTP"), u.Func("(*Server).notifyTransport"), u.Func("(*Server).ProtocolHash")}
 	for n, cl := range routeClass {
 		_ = cl
